@@ -9,6 +9,7 @@ WEAK = """    open spec fn wf_ok(&self) -> bool { true }
     open spec fn wf_dec(data: Seq<u8>, p: int, v: &Self, p2: int) -> bool { true }
     open spec fn wf_cdec(data: Seq<u8>, p: int, v: &Self, p2: int) -> bool { true }
     open spec fn wf_canon(&self) -> bool { true }
+    open spec fn wf_in_rdata() -> bool { true }
     open spec fn wf_nocomp() -> bool { false }
     proof fn lemma_rt(&self, pre: Seq<u8>) {}
 """
@@ -51,6 +52,7 @@ impl<'a> NULL<'a> {
     }
     open spec fn wf_cdec(data: Seq<u8>, p: int, v: &Self, p2: int) -> bool { Self::wf_dec(data, p, v, p2) }
     open spec fn wf_canon(&self) -> bool { true }
+    open spec fn wf_in_rdata() -> bool { true }
     open spec fn wf_nocomp() -> bool { false }
     proof fn lemma_rt(&self, pre: Seq<u8>) {
         let d = pre + self.wf_enc();
@@ -91,6 +93,7 @@ pub proof fn lemma_opt_items_push(cs: Seq<OPTCode>, c: OPTCode)
         tlv16(data, p, opt_items(v.opt_codes@), data.len() as int) && p2 == data.len()
     }
     open spec fn wf_canon(&self) -> bool { true }
+    open spec fn wf_in_rdata() -> bool { true }
     open spec fn wf_nocomp() -> bool { false }
     proof fn lemma_rt(&self, pre: Seq<u8>) { lemma_tlv16_rt(pre, opt_items(self.opt_codes@)); }
 """, verified_inherent=('extract_rcode_from_ttl', 'encode_ttl'), external_trait_fns=('len',))
@@ -172,6 +175,7 @@ impl<'a> TXT<'a> {
     /// an empty TXT is written as one empty string and reads back as such (not as an empty list): canonical = non-empty
     open spec fn wf_cdec(data: Seq<u8>, p: int, v: &Self, p2: int) -> bool { Self::wf_dec(data, p, v, p2) }
     open spec fn wf_canon(&self) -> bool { self.items().len() > 0 }
+    open spec fn wf_in_rdata() -> bool { true }
     open spec fn wf_nocomp() -> bool { false }
     proof fn lemma_rt(&self, pre: Seq<u8>) { lemma_lv8_rt(pre, self.items()); }
 """, external_trait_fns=())
@@ -227,6 +231,7 @@ pub proof fn lemma_nsec_items_push(ms: Seq<TypeBitMap>, m: TypeBitMap)
     }
     open spec fn wf_cdec(data: Seq<u8>, p: int, v: &Self, p2: int) -> bool { Self::wf_dec(data, p, v, p2) }
     open spec fn wf_canon(&self) -> bool { true }
+    open spec fn wf_in_rdata() -> bool { true }
     open spec fn wf_nocomp() -> bool { true }
     #[verifier::external_body]
     proof fn lemma_rt(&self, pre: Seq<u8>) {}
@@ -293,6 +298,7 @@ impl<'a> SVCB<'a> {
     }
     open spec fn wf_cdec(data: Seq<u8>, p: int, v: &Self, p2: int) -> bool { Self::wf_dec(data, p, v, p2) }
     open spec fn wf_canon(&self) -> bool { true }
+    open spec fn wf_in_rdata() -> bool { true }
     open spec fn wf_nocomp() -> bool { true }
     #[verifier::external_body]
     proof fn lemma_rt(&self, pre: Seq<u8>) {}
@@ -371,6 +377,7 @@ pub open spec fn gw_enc(g: &Gateway) -> Seq<u8> {
     }
     open spec fn wf_cdec(data: Seq<u8>, p: int, v: &Self, p2: int) -> bool { Self::wf_dec(data, p, v, p2) }
     open spec fn wf_canon(&self) -> bool { true }
+    open spec fn wf_in_rdata() -> bool { true }
     open spec fn wf_nocomp() -> bool { true }
     proof fn lemma_rt(&self, pre: Seq<u8>) {
         let d = pre + self.wf_enc();
@@ -412,6 +419,7 @@ pub open spec fn gw_enc(g: &Gateway) -> Seq<u8> {
     }
     open spec fn wf_cdec(data: Seq<u8>, p: int, v: &Self, p2: int) -> bool { Self::wf_dec(data, p, v, p2) }
     open spec fn wf_canon(&self) -> bool { true }
+    open spec fn wf_in_rdata() -> bool { true }
     open spec fn wf_nocomp() -> bool { false }
     proof fn lemma_rt(&self, pre: Seq<u8>) {
         lemma_pow256_vals();
